@@ -57,6 +57,10 @@ pub struct Profile {
     pub exact_edge_pct: u64,
     /// histories that start with a liquidation attempted while the spot price sits exactly on the band limit
     pub exact_edge_liq_pct: u64,
+    /// chance (percent, per history) of the busy-market macro at the start of a history
+    pub busy_pct: u64,
+    /// chance (percent) that the extra (not live) vAMM names a second insurance fund that does list it
+    pub foreign_fund_pct: u64,
     /// share of fee-pool re-pointings that name an address which is not in normal form
     pub malformed_addr_pct: u64,
     /// share of OpenPosition calls that also attach a coin of a foreign denomination (before or after the collateral coin)
@@ -91,6 +95,8 @@ impl Default for Profile {
             stray_funds_pct: 0,
             exact_edge_pct: 2,
             exact_edge_liq_pct: 1,
+            busy_pct: 1,
+            foreign_fund_pct: 25,
             malformed_addr_pct: 20,
             foreign_coin_pct: 2,
         }
@@ -142,11 +148,15 @@ pub fn rand_cfg(rng: &mut Rng, p: &Profile) -> DeployCfg {
             decimals: None,
             live: true,
             unwired: false,
+            foreign_fund: false,
         });
     }
     if rng.chance(p.extra_vamm_pct, 100) && vamms.len() <= 3 {
         let mut extra = vamms[0].clone();
         extra.live = false;
+        // deployed the way a third party would list a market of its own: open, wired to the engine, listed by an
+        // insurance fund - but not by the engine's
+        extra.foreign_fund = rng.chance(p.foreign_fund_pct, 100);
         if rng.chance(p.mismatch_decimals_pct, 100) {
             if dec > 6 && rng.chance(1, 2) {
                 // fewer decimals than the engine
@@ -1201,6 +1211,54 @@ impl Gen {
         }
     }
 
+    /// A busy market: a leveraged position, a price move against it, then a trade in each of 78-110 consecutive short
+    /// blocks - more reserve snapshots inside the fifteen-minute window than any fixture produces, with the price move
+    /// older than all of them but still inside the window - and then decisions that depend on the 15-minute TWAP: a
+    /// liquidation attempt on the position (under-margined by spot, not necessarily by TWAP), a withdrawal, a funding round.
+    pub fn macro_busy_market(&mut self, h: &mut History, r: &mut Report) {
+        let v = self.pick_vamm(h);
+        if !h.last.vamms[v].open || !h.last.vamms[v].registered || h.last.eng.paused {
+            return;
+        }
+        let victim = self.pick_trader();
+        let d = h.w.d;
+        let buy = self.rng.chance(1, 2);
+        let init = h.last.eng.initial.max(1);
+        let maint = h.last.eng.maint;
+        let lev = (d * d / init).max(d);
+        let frac = *self.rng.pick(&[1_000u128, 10_000, 30_000]);
+        if !self.ensure_position(h, r, victim, v, buy, frac, lev) {
+            return;
+        }
+        self.advance(h, r, 3, 20);
+        // far enough for the spot ratio to fall to about the maintenance ratio (sometimes well below it)
+        let extra = *self.rng.pick(&[0u128, 5_000, 20_000, 60_000]);
+        let mut pct = (init.saturating_sub(maint)) * 1_000_000 / d + extra;
+        let fl = h.last.vamms[v].fluct;
+        if fl > 0 {
+            pct = pct.min(fl * 1_000_000 / d * 8 / 10).max(500);
+        }
+        self.move_price(h, r, v, !buy, pct.max(1_000));
+        let n = self.rng.range(78, 110);
+        let others: Vec<&'static str> = TRADERS.iter().cloned().filter(|t| *t != victim && *t != "whale").collect();
+        for i in 0..n {
+            let secs = self.rng.range(3, 8);
+            h.step(Op::Advance { blocks: 1, secs, nanos: 0 }, r);
+            let who = others[(i as usize) % others.len()];
+            let m = (h.last.vamms[v].q / 10_000_000).max(10) + self.rng.below(50) as u128;
+            self.open(h, r, who, v, i % 2 == 0, m, d, 0);
+        }
+        let caller = *self.rng.pick(&["liquidator", "stranger"]);
+        self.liquidate(h, r, caller, v, victim, 0);
+        if h.last.pos(v, victim).map(|p| p.size != 0).unwrap_or(false) {
+            let m = h.last.pos(v, victim).map(|p| p.margin).unwrap_or(0);
+            self.withdraw(h, r, victim, v, (m / 50).max(1));
+        }
+        let who = others[0];
+        let op = Op::Engine { sender: who.into(), msg: eng::ExecuteMsg::PayFunding { vamm: Self::vaddr(h, v) }, funds: 0 };
+        self.do_step(h, r, op);
+    }
+
     pub fn macro_funding_shock(&mut self, h: &mut History, r: &mut Report) {
         let v = self.pick_vamm(h);
         let rounds = self.rng.range(1, 4);
@@ -1798,6 +1856,9 @@ impl Gen {
         }
         if self.rng.chance(self.prof.exact_edge_liq_pct, 100) {
             self.macro_exact_edge_liquidation(h, r);
+        }
+        if self.rng.chance(self.prof.busy_pct, 100) {
+            self.macro_busy_market(h, r);
         }
         // seed a few positions so that early steps are not vacuous
         for _ in 0..3 {
